@@ -77,6 +77,11 @@ func genStorePlan(class string) func(r *prng) *plan {
 				n := 2 + r.intn(5)
 				p.Ops = append(p.Ops, opSpec{K: "par", N: []int64{int64(n)}})
 				for j := 0; j < n; j++ {
+					if r.chance(25) {
+						// a reader racing the writers (and their prunes)
+						p.Ops = append(p.Ops, opSpec{K: "pget", N: []int64{int64(r.intn(nids))}})
+						continue
+					}
 					p.Ops = append(p.Ops, opSpec{K: "put", N: []int64{int64(r.intn(nids)), size(), int64(r.u64() >> 1)}})
 				}
 			case class == "crash" && r.chance(8):
@@ -249,15 +254,15 @@ func runStore(seed uint64, engine, class string) {
 		switch op.K {
 		case "put":
 			s.doPut(op)
-		case "get":
-			s.doGet(op)
+		case "get", "pget":
+			s.doGet(op) // a pget outside a batch (minimised plan) is an ordinary get
 		case "reopen":
 			s.doReopen()
 		case "par":
 			n := int(op.n(0))
 			var batch []opSpec
 			for j := i + 1; j < len(ops) && len(batch) < n; j++ {
-				if ops[j].K != "put" {
+				if ops[j].K != "put" && ops[j].K != "pget" {
 					break
 				}
 				batch = append(batch, ops[j])
@@ -727,18 +732,21 @@ func (s *storeSim) doPar(batch []opSpec) {
 	before := s.scan()
 	sched := newPrng(uint64(s.p.cfg("sched")) + uint64(s.opIdx))
 	type putRes struct {
-		id  [32]byte
-		val []byte
-		err error
+		id    [32]byte
+		val   []byte
+		err   error
+		isGet bool // a concurrent reader: val is what Get returned
 	}
 	res := make([]*putRes, len(batch))
 	var tasks []*ytask
 	s.yieldOn = true
 	for i, op := range batch {
 		id := s.ids[int(op.n(0))%len(s.ids)]
-		val := valueFor(op.n(2), op.n(1))
-		s.ever[id] = append(s.ever[id], val)
-		pr := &putRes{id: id, val: val}
+		pr := &putRes{id: id, isGet: op.K == "pget"}
+		if !pr.isGet {
+			pr.val = valueFor(op.n(2), op.n(1))
+			s.ever[id] = append(s.ever[id], pr.val)
+		}
 		res[i] = pr
 		t := &ytask{name: fmt.Sprintf("put%d", i), resume: make(chan struct{})}
 		tasks = append(tasks, t)
@@ -750,7 +758,11 @@ func (s *storeSim) doPar(batch []opSpec) {
 			t.parked = true
 			<-t.resume
 			t.parked = false
-			pr.err = s.st.Put(nil, pr.id[:], pr.val)
+			if pr.isGet {
+				pr.val, pr.err = s.st.Get(nil, pr.id[:])
+			} else {
+				pr.err = s.st.Put(nil, pr.id[:], pr.val)
+			}
 			t.done = true
 		}()
 		<-started
@@ -814,6 +826,22 @@ func (s *storeSim) doPar(batch []opSpec) {
 	// quiescent: all puts returned
 	v := s.scan()
 	okPuts := 0
+	var gets []*putRes
+	for _, pr := range res {
+		if pr.isGet {
+			gets = append(gets, pr)
+		}
+	}
+	{
+		// the puts are judged below on a list without the readers
+		var puts []*putRes
+		for _, pr := range res {
+			if !pr.isGet {
+				puts = append(puts, pr)
+			}
+		}
+		res = puts
+	}
 	for _, pr := range res {
 		if pr.err == nil {
 			okPuts++
@@ -823,6 +851,37 @@ func (s *storeSim) doPar(batch []opSpec) {
 			}
 		} else if !errors.Is(pr.err, storage.ErrInsufficientRadius) {
 			w.violate("C05", "par-put-error", "concurrent put failed: %v", pr.err)
+		}
+	}
+	// concurrent readers: whatever a get returns while puts and prunes run is one complete value that
+	// the id held before the batch or that a put of the batch wrote; "not found" needs the id to have
+	// been absent before or a prune to have been possible (some put accepted); nothing else
+	for _, g := range gets {
+		prev, had := s.model[g.id]
+		switch {
+		case g.err == nil:
+			w.probe("par_get_hit")
+			legal := had && bytes.Equal(prev, g.val)
+			for _, pr := range res {
+				if pr.id == g.id && bytes.Equal(pr.val, g.val) {
+					legal = true
+				}
+			}
+			if !legal {
+				if everContains(s.ever[g.id], g.val) {
+					w.violate("C04", "stale-value", "a get racing the puts of par#%d returned for %s a value the id did not hold before the batch and no put of the batch wrote", s.opIdx, short(g.id))
+				} else {
+					w.violate("C04", "value-not-put", "a get racing the puts of par#%d returned bytes never put under %s (%d bytes)", s.opIdx, short(g.id), len(g.val))
+				}
+			}
+			s.held = append(s.held, retained{op: s.opIdx, id: g.id, slice: g.val, copy: append([]byte(nil), g.val...)})
+		case errors.Is(g.err, storage.ErrContentNotFound):
+			w.probe("par_get_miss")
+			if had && okPuts == 0 {
+				w.violate("C04", "lost", "a get racing the puts of par#%d: %s not found although it was stored and no put was accepted (nothing could prune it)", s.opIdx, short(g.id))
+			}
+		default:
+			w.violate("C04", "get-error", "a get racing the puts of par#%d failed without any injected fault: %v", s.opIdx, g.err)
 		}
 	}
 	// values: each present value was put under that id; for ids touched by the batch it must be
